@@ -26,6 +26,29 @@ class SymIndexArr(Proxy):
         self.ndim = 1
         self.kind = "i"
 
+    @property
+    def size(self):
+        """Number of enumerated indices. Modelled for sets of the form {p : labels[p] in V} over a label array with a
+        CONCRETE number of distinct labels: the sum, over the distinct labels that belong to V, of their populations
+        (every row belongs to exactly one group; cardinality of a disjoint union - an assumed fact about counting)."""
+        from .core import concrete_value, ite
+        from .prelude_groupby import structure_of
+        from .sums import count_equal
+
+        info = getattr(self.iset, "isin_of", None)
+        if info is None:
+            raise Unsupported("size of an index array that is not a label-membership selection")
+        labels, member_of = info
+        gs = structure_of(labels)
+        G = concrete_value(gs.G)
+        if G is None:
+            raise Unsupported("size of a label-membership selection with a symbolic number of labels")
+        ctx().used_axioms.add("cardinality: |{p : label[p] in V}| = sum over the distinct labels in V of their populations")
+        tot = 0
+        for g in range(int(G)):
+            tot = tot + ite(member_of(gs.key(g)), count_equal(labels, gs.key(g)), 0)
+        return lift(tot)
+
 
 class SymIndexTuple(Proxy):
     """Tuple of index arrays (one per dimension of `shape`) selecting exactly `iset`."""
